@@ -51,3 +51,46 @@ Definition repr_mis_y (cs : list repr_case) : list N :=
 
 Definition repr_mis_g (cs : list repr_case) : list N :=
   flat_map (fun '(id, c, t, _, _, ref_repr) => if Bool.eqb (g_representable c t) ref_repr then [] else [id]) cs.
+
+(** exact level, for the trees of the enlarged proved fragment (Const/FloatProofs.v): go/types checks
+    `const K = e` and records the untyped kind and the exact go/constant value of K, or rejects.
+    [geval_mis_g]: ids where G.eval differs from that (kind and exact value), or where the tree is
+    not in the fragment [frf] of the theorem; [geval_mis_y]: ids where one visit of the faithful
+    model ([y_eval]) differs from it. *)
+From Verif Require Import Const.Proofs Const.FloatProofs.
+
+Definition geval_case := (N * expr * option (ukind * gval))%type.
+
+Definition gval_eqb (a b : gval) : bool :=
+  match a, b with
+  | GI x, GI y => (x =? y)%Z
+  | GQ x, GQ y => q_eqb x y
+  | GS x, GS y => str_eqb x y
+  | GB x, GB y => Bool.eqb x y
+  | _, _ => false
+  end.
+
+Definition geval_mis_g (cs : list geval_case) : list N :=
+  flat_map (fun '(id, e, ref) =>
+    let in_frag := match frf e with Some _ => true | None => false end in
+    let ok := match g_eval [] 0 e, ref with
+              | Some (GU k, v), Some (k', v') => ukind_eqb k k' && gval_eqb v v'
+              | None, None => true
+              | _, _ => false
+              end in
+    if in_frag && ok then [] else [id]) cs.
+
+Definition geval_mis_y (cs : list geval_case) : list N :=
+  flat_map (fun '(id, e, ref) =>
+    let ok := match y_eval 0 e, ref with
+              | Ok (t, Some (VC c)), Some (k, v) =>
+                  ytyp_eqb t (y_typ_of k)
+                  && match c, v with
+                     | CInt x, GI y => (x =? y)%Z
+                     | CRat x, GQ y => q_eqb x y
+                     | _, _ => false
+                     end
+              | Err, None => true
+              | _, _ => false
+              end in
+    if ok then [] else [id]) cs.
